@@ -69,6 +69,27 @@ class Frozen(BaseException):
 FROZEN_CPU = 10.0  # CPU seconds inside server code without one scheduler iteration
 
 
+def _server_origin(e: BaseException) -> Optional[str]:
+    """If the exception was raised below the code under test - no harness frame deeper than the
+    deepest frame of hypercorn - name that frame; None for an exception of the harness's own
+    (including one raised by a harness callback that the server called)."""
+    frames = []
+    tb = e.__traceback__
+    while tb is not None:
+        frames.append((tb.tb_frame.f_code.co_filename, tb.tb_frame.f_code.co_name, tb.tb_lineno))
+        tb = tb.tb_next
+    verif = str(VERIF) + os.sep
+    deps = str(VERIF / ".deps") + os.sep
+    src = str(REPO / "src" / "hypercorn") + os.sep
+    last_harness = max((i for i, f in enumerate(frames)
+                        if f[0].startswith(verif) and not f[0].startswith(deps)), default=-1)
+    server = [f for f in frames[last_harness + 1:] if f[0].startswith(src)]
+    if not server:
+        return None
+    fn, name, line = server[-1]
+    return f"{fn[len(src):]}:{name}:{line}"
+
+
 def guarded_run_case(part: Any, case: Any) -> Any:
     """part.run_case(case) under the per-case wall guard.
 
@@ -134,9 +155,15 @@ def guarded_run_case(part: Any, case: Any) -> Any:
         finally:
             signal.setitimer(signal.ITIMER_REAL, 0)
             signal.signal(signal.SIGALRM, old)
-    except BaseException:
+    except BaseException as e:
         if st.get("verdict") is not None:
             raise st["verdict"] from None
+        if isinstance(e, Exception) and not isinstance(e, (Violation, Inconclusive)):
+            where = _server_origin(e)
+            if where is not None:
+                # An exception that comes *out of* the code under test for a generated - i.e.
+                # well-formed - input is a verdict on that code, not a failure of the harness.
+                raise Violation("exception_from_server_code", f"{e!r} raised in {where}") from e
         raise
     if st.get("verdict") is not None:
         raise st["verdict"]
